@@ -116,6 +116,16 @@ def judge_pair(st, lang, x, y, src, seen_sets):
         st.violation(f'mutates_arguments/{lang}', f'({sx}, {sy}) changed by the call', **base)
     try:
         again = sig(fn(x, y))
+        if ref or st.c['pairs'] % 4 == 0:
+            # between two calls the label guesser (used by every treebank reader) asks the same rule function about this pair,
+            # once for a category among the results and once for a category that is not: the next call must still answer the same
+            from depccg.grammar import guess_combinator_by_triplet
+            for target in ([_unkey(ref[0][0])] if ref else []) + [K.P('NP[never]')]:
+                guess_combinator_by_triplet(fn, target, x, y)
+            after_guess = sig(fn(x, y))
+            st.count('calls_after_label_guess')
+            if after_guess != ref:
+                again = after_guess
     except Exception as e:
         again = repr(e)
     if again != ref:
